@@ -1,6 +1,6 @@
 /-
   C02 — `$ref` is transparent: a reference behaves as the schema it designates.
-  Property theorems only; helper lemmas live in JS/Proofs/Ref.lean.
+  Property theorems only; helper lemmas live in JS/Proofs/Ref.lean and JS/Proofs/ValidRef.lean.
 
   What is proved: (1) evaluating a reference object IS evaluating the designated schema, in the
   designated schema's scope, with identical error records (no schema-path element is added,
@@ -9,11 +9,14 @@
   to the top of the scope stack), then the store lookup under the normalised, defragmented URI,
   then RFC 6901 evaluation of the fragment (C14's `resolve_eq_spec`); (3) the base URI in effect
   while a subschema is evaluated is the join of the ids on the evaluation path, and is restored
-  afterwards (stack discipline). The global statement "same verdict and error locations as the
-  schema with every reference written out" (for every placement, chain and recursion) is decided by
-  the correspondence and by the inlining monitor, not by a theorem (DESIGN §6 C02).
+  afterwards (stack discipline); (4) globally (`ref_verdict_agrees`): on every reference domain the
+  verdict is that of the specification with references `Spec.validRN`, for every placement, chain
+  and recursion. The statement about error LOCATIONS ("as the schema with every reference written
+  out") is decided by the correspondence and by the inlining monitor, not by a theorem (DESIGN §6 C02).
 -/
 import JS.Proofs.Ref
+import JS.Proofs.ValidRef
+import JS.Props.C15
 namespace JS.Props.C02
 open JS
 
@@ -172,5 +175,286 @@ theorem no_id_same_scope (env : Env) (impl : FmtImpl) (cfg : Cfg) (rec : Rec)
     (hid : Json.lookup cfg.idKey kvs = none ∨ Json.hasKey (skey "$ref") kvs = true) :
     evalStep env impl cfg rec inst (.obj kvs) b st = schemaBody env impl cfg rec inst kvs b st := by
   rw [evalStep_obj_noId env impl cfg rec kvs inst hid]
+
+/-! ### The global statement: the verdict is that of the specification WITH references
+
+`Spec.validRN` (JS.Spec.ValidRef) extends C01's specification by the drafts' two clauses about
+references: a schema object with `$ref` is valid for exactly the instances its designated schema is
+valid for (siblings ignored), and `id`/`$id` changes the base URI in effect below it. The
+designated schema is `Spec.designated`: RFC 3986 join with the base in effect, the document the
+URI stands for (store, else retrieval), RFC 6901 fragment. On every `Spec.RefDomain` — a set of
+(base, schema) pairs closed under subschemas and designation, shaped as the draft prescribes —
+and from every resolver state that lives in the world `base` (whatever it has learnt so far),
+whenever the exhaustive run ends normally (no `RefResolutionError`, not out of fuel) it yields no
+error exactly when the specification says valid, with any number of steps from `fuel` on. -/
+
+/-- **C02, globally.** References (local, into store documents, retrieved, chained, recursive),
+    nested `id`/`$id`, every placement, four drafts. (No totality assumption on the URI functions: the joins that
+    arise succeed by `Spec.RefDomain.ident` and `.ref`.) -/
+theorem ref_verdict_agrees (env : Env) (hre : Spec.RegexTotal env)
+    (hset : Spec.SetOrderOk env) (hf : Props.C15.StableFetch env)
+    (impl : FmtImpl) (d : Draft) (base : List (Str × Json)) (D : Str → Json → Bool)
+    (hD : Spec.RefDomain env d base D)
+    (top : Str) (s i : Json) (hs : D top s = true) (hwi : Spec.WF i = true)
+    (fuel : Nat) (st : RState) (hst : Props.C15.SameWorld env base st st) (htop : st.top = top)
+    (hdone : (eval env impl (d.cfg none) fuel i s none st).stop = .done) :
+    ∀ m, fuel ≤ m →
+      ((eval env impl (d.cfg none) fuel i s none st).errs = [] ↔ Spec.validRN env d base m top s i = true) := by
+  intro m hm
+  have hv := evalR_vd (impl := impl) hre hset hf hD fuel top s hs m hm i hwi st.scopes htop
+  have he := (hv.done none st nofun ⟨(C15.sameWorld_iff.1 hst).left, rfl⟩ hdone).2.1
+  rw [← he, List.isEmpty_iff]
+
+/-- … hence the specification's answer has a limit and the verdict is that limit -/
+theorem ref_verdict_limit (env : Env) (hre : Spec.RegexTotal env)
+    (hset : Spec.SetOrderOk env) (hf : Props.C15.StableFetch env)
+    (impl : FmtImpl) (d : Draft) (base : List (Str × Json)) (D : Str → Json → Bool)
+    (hD : Spec.RefDomain env d base D)
+    (top : Str) (s i : Json) (hs : D top s = true) (hwi : Spec.WF i = true)
+    (fuel : Nat) (st : RState) (hst : Props.C15.SameWorld env base st st) (htop : st.top = top)
+    (hdone : (eval env impl (d.cfg none) fuel i s none st).stop = .done) :
+    Spec.ValidR env d base top s i ((eval env impl (d.cfg none) fuel i s none st).errs.isEmpty) := by
+  refine ⟨fuel, fun m hm => ?_⟩
+  have h := ref_verdict_agrees env hre hset hf impl d base D hD top s i hs hwi fuel st hst htop
+    hdone m hm
+  rw [Bool.eq_iff_iff, ← h, List.isEmpty_iff]
+
+/-- `is_valid` (the run closed at the first error) gives the same verdict -/
+theorem ref_isValid_agrees (env : Env) (hre : Spec.RegexTotal env)
+    (hset : Spec.SetOrderOk env) (hf : Props.C15.StableFetch env)
+    (impl : FmtImpl) (d : Draft) (base : List (Str × Json)) (D : Str → Json → Bool)
+    (hD : Spec.RefDomain env d base D)
+    (top : Str) (s i : Json) (hs : D top s = true) (hwi : Spec.WF i = true)
+    (fuel : Nat) (st : RState) (hst : Props.C15.SameWorld env base st st) (htop : st.top = top)
+    (hdone : (eval env impl (d.cfg none) fuel i s none st).stop = .done) :
+    (isValid (eval env impl (d.cfg none) fuel i s) st).1 = .ok (Spec.validRN env d base fuel top s i) := by
+  have h := ref_verdict_agrees env hre hset hf impl d base D hD top s i hs hwi fuel st hst htop
+    hdone fuel (Nat.le_refl _)
+  rw [(prefixLaw_eval env impl (d.cfg none) fuel i s).isValid_spec st, hdone]
+  cases he : (eval env impl (d.cfg none) fuel i s none st).errs with
+  | nil => rw [h.1 he]
+  | cons e es =>
+    have : Spec.validRN env d base fuel top s i = false := by
+      rw [Bool.eq_false_iff]
+      intro hv
+      rw [h.2 hv] at he
+      cases he
+    rw [this]
+
+/-- on reference-free schemas the specification with references is C01's, whatever the base -/
+theorem validRN_reffree (env : Env) (d : Draft) (base : List (Str × Json)) (top : Str) (s i : Json)
+    (hs : Spec.shaped d s = true) (n : Nat) :
+    Spec.validRN env d base n top s i = Spec.validN env d n s i := by
+  exact validRN_reffree_aux env d base n (s.size + 1) top s i hs
+
+/-! ### Non-vacuity: a recursive schema
+
+A world without retrieval; the draft 7 schema
+`{"properties": {"next": {"$ref": "#"}, "v": {"type": "integer"}}}` (a linked list) is the document
+stored under the URI `""`; the domain is the finite table of its three schema objects under the two
+base URIs that arise (`""` at the root, `"#"` inside the reference). -/
+
+namespace Recursive
+open JS.Spec
+
+/-- joining yields the reference itself (the base when the reference is empty), the fragment is
+    what follows the first `#`, normalisation is the identity, every retrieval fails -/
+def env : Env where
+  reSearch := fun _ _ => some (some false)
+  urljoin := fun a b => some (if b = [] then a else b)
+  urldefrag := fun u => some (u.takeWhile (· != '#'), (u.dropWhile (· != '#')).drop 1)
+  urinorm := fun u => some u
+  scheme := fun _ => none
+  sortPerm := fun _ => none
+  setOrder := fun xs => some xs
+  fetch := fun _ _ => some none
+  fmt := fun _ _ => none
+
+def impl : FmtImpl := ⟨fun _ _ => none⟩
+
+theorem regexTotal : RegexTotal env := fun _ _ => ⟨false, rfl⟩
+theorem urlTotal : UrlTotal env := ⟨fun _ _ => rfl, fun _ => rfl, fun _ => rfl⟩
+theorem setOrderOk : SetOrderOk env := fun xs => ⟨xs, rfl, List.Perm.refl _⟩
+theorem stable : C15.StableFetch env := ⟨fun _ _ _ => rfl, fun _ _ _ _ _ _ => rfl⟩
+
+/-- a domain given by a finite table of (base URI, schema object) pairs -/
+def tableD (tbl : List (Str × List (Str × Json))) (top : Str) (s : Json) : Bool :=
+  match s with
+  | .obj kvs => decide ((top, kvs) ∈ tbl)
+  | _ => false
+
+theorem tableD_all {tbl : List (Str × List (Str × Json))} {Q : Str → List (Str × Json) → Prop}
+    (h : ∀ p ∈ tbl, Q p.1 p.2) : ∀ top kvs, tableD tbl top (.obj kvs) = true → Q top kvs :=
+  fun top kvs hd => h (top, kvs) (of_decide_eq_true hd)
+
+theorem tableD_obj {tbl : List (Str × List (Str × Json))} {top : Str} {s : Json}
+    (h : tableD tbl top s = true) : ∃ kvs, s = .obj kvs := by
+  cases s <;> first | exact ⟨_, rfl⟩ | cases h
+
+theorem done_of_isDone {s : Stop} (h : s.isDone = true) : s = .done := by
+  cases s <;> first | rfl | cases h
+
+def refKvs : List (Str × Json) := [(k!"$ref", .str ['#'])]
+def intKvs : List (Str × Json) := [(k!"type", .str (k!"integer"))]
+def rootKvs : List (Str × Json) :=
+  [(k!"properties", .obj [(k!"next", .obj refKvs), (k!"v", .obj intKvs)])]
+def root : Json := .obj rootKvs
+def base : List (Str × Json) := [([], root)]
+
+def table : List (Str × List (Str × Json)) :=
+  [([], rootKvs), ([], refKvs), ([], intKvs), (['#'], rootKvs), (['#'], refKvs), (['#'], intKvs)]
+
+def D : Str → Json → Bool := tableD table
+
+theorem refDomain : RefDomain env .d7 base D where
+  kind := fun top s h => by
+    obtain ⟨kvs, rfl⟩ := tableD_obj h
+    exact Or.inl rfl
+  side := fun top s h => by
+    obtain ⟨kvs, rfl⟩ := tableD_obj h
+    exact tableD_all (tbl := table)
+      (Q := fun _ kvs => WF (.obj kvs) = true ∧ numSafe (.obj kvs) = true
+        ∧ typesKnown .d7 (.obj kvs) = true) (by decide +kernel) top kvs h
+  ident := fun top kvs h => by
+    have := tableD_all (tbl := table)
+      (Q := fun _ kvs => lookupJ "$id" kvs = none ∧ idOf .d7 kvs = none) (by decide +kernel) top kvs h
+    refine ⟨?_, fun id hid => ?_⟩
+    · show (match lookupJ "$id" kvs with | some v => isStrJ v | none => true) = true
+      rw [this.1]
+    · rw [this.2] at hid; cases hid
+  shape := fun top kvs h => tableD_all (tbl := table)
+    (Q := fun top kvs => lookupJ "$ref" kvs = none →
+      kvs.all (shapeClause .d7 (D (baseInside env .d7 top kvs))) = true) (by decide +kernel) top kvs h
+  ref := fun top kvs r h hr => by
+    have := tableD_all (tbl := table)
+      (Q := fun top kvs => lookupJ "$ref" kvs = none ∨
+        (lookupJ "$ref" kvs = some (.str ['#']) ∧ designated env base top ['#'] = some (['#'], root)
+          ∧ env.urljoin top ['#'] = some ['#'] ∧ D ['#'] root = true)) (by decide +kernel) top kvs h
+    rcases this with h0 | ⟨h1, h2, h3, h4⟩
+    · rw [h0] at hr; cases hr
+    · rw [h1] at hr
+      cases hr
+      exact ⟨_, _, _, rfl, h2, h3, h4⟩
+  req3 := fun h => nomatch h
+
+/-- a fresh resolver whose store is the caller's -/
+def st0 : RState := ⟨[], base, [], none, true, 0, []⟩
+
+/-- `{"next": {"next": {"v": 1}}, "v": 2}` -/
+def inst : Json :=
+  .obj [(k!"next", .obj [(k!"next", .obj [(k!"v", .num (.int 1))])]), (k!"v", .num (.int 2))]
+
+/-- `{"next": {"next": {"v": "one"}}, "v": 2}` -/
+def instBad : Json :=
+  .obj [(k!"next", .obj [(k!"next", .obj [(k!"v", .str (k!"one"))])]), (k!"v", .num (.int 2))]
+
+/-- `ref_verdict_agrees` applies (every hypothesis is discharged by computation) … -/
+example :
+    (eval env impl (Draft.d7.cfg none) 10 inst root none st0).errs = []
+      ↔ validRN env .d7 base 10 [] root inst = true :=
+  ref_verdict_agrees env regexTotal setOrderOk stable impl .d7 base D refDomain [] root inst
+    (by decide +kernel) (by decide +kernel) 10 st0 (C15.sameWorld_fresh env st0 rfl) rfl
+    (done_of_isDone (by decide +kernel)) 10 (Nat.le_refl _)
+
+/-- … and says something: the list `inst` is valid, three references deep, … -/
+example : validRN env .d7 base 10 [] root inst = true
+    ∧ (eval env impl (Draft.d7.cfg none) 10 inst root none st0).errs.isEmpty = true := by
+  decide +kernel
+
+/-- … the list `instBad` is not (the error sits behind two references) -/
+example :
+    ((eval env impl (Draft.d7.cfg none) 10 instBad root none st0).errs = []
+      ↔ validRN env .d7 base 10 [] root instBad = true)
+    ∧ validRN env .d7 base 10 [] root instBad = false :=
+  ⟨ref_verdict_agrees env regexTotal setOrderOk stable impl .d7 base D refDomain [] root
+    instBad (by decide +kernel) (by decide +kernel) 10 st0 (C15.sameWorld_fresh env st0 rfl) rfl
+    (done_of_isDone (by decide +kernel)) 10 (Nat.le_refl _), by decide +kernel⟩
+
+end Recursive
+
+/-! ### Why `Spec.RefDomain` has the field `req3`
+
+The domain as first given (`Spec.RefDomain_statement`) says nothing about the keys next to a
+`$ref`. In draft 3 one of them matters all the same: `required` is read by the ENCLOSING
+`properties` keyword, and the implementation takes any truthy value for `true`
+(`subschema.get("required", False)`), while the specification reads `true` only. With
+`{"properties": {"a": {"$ref": "#", "required": "yes"}}}` and the instance `{}` the implementation
+reports a missing property and the specification does not. -/
+
+/-- `ref_verdict_agrees` over the domain as first given -/
+def ref_verdict_agrees_statement : Prop :=
+  ∀ (env : Env) (_ : Spec.RegexTotal env)
+    (_ : Spec.SetOrderOk env) (_ : Props.C15.StableFetch env)
+    (impl : FmtImpl) (d : Draft) (base : List (Str × Json)) (D : Str → Json → Bool)
+    (_ : Spec.RefDomain_statement env d base D)
+    (top : Str) (s i : Json) (_ : D top s = true) (_ : Spec.WF i = true)
+    (fuel : Nat) (st : RState) (_ : Props.C15.SameWorld env base st st) (_ : st.top = top)
+    (_ : (eval env impl (d.cfg none) fuel i s none st).stop = .done),
+    ∀ m, fuel ≤ m →
+      ((eval env impl (d.cfg none) fuel i s none st).errs = [] ↔ Spec.validRN env d base m top s i = true)
+
+namespace Required3
+open JS.Spec Recursive
+
+def aKvs : List (Str × Json) := [(k!"$ref", .str ['#']), (k!"required", .str (k!"yes"))]
+def rootKvs : List (Str × Json) := [(k!"properties", .obj [(k!"a", .obj aKvs)])]
+def root : Json := .obj rootKvs
+def base : List (Str × Json) := [([], root)]
+def table : List (Str × List (Str × Json)) :=
+  [([], rootKvs), ([], aKvs), (['#'], rootKvs), (['#'], aKvs)]
+def D : Str → Json → Bool := tableD table
+def st0 : RState := ⟨[], base, [], none, true, 0, []⟩
+
+theorem refDomain_statement : RefDomain_statement env .d3 base D where
+  kind := fun top s h => by
+    obtain ⟨kvs, rfl⟩ := tableD_obj h
+    exact Or.inl rfl
+  side := fun top s h => by
+    obtain ⟨kvs, rfl⟩ := tableD_obj h
+    exact tableD_all (tbl := table)
+      (Q := fun _ kvs => WF (.obj kvs) = true ∧ numSafe (.obj kvs) = true
+        ∧ typesKnown .d3 (.obj kvs) = true) (by decide +kernel) top kvs h
+  ident := fun top kvs h => by
+    have := tableD_all (tbl := table)
+      (Q := fun _ kvs => lookupJ "id" kvs = none ∧ idOf .d3 kvs = none) (by decide +kernel) top kvs h
+    refine ⟨?_, fun id hid => ?_⟩
+    · show (match lookupJ "id" kvs with | some v => isStrJ v | none => true) = true
+      rw [this.1]
+    · rw [this.2] at hid; cases hid
+  shape := fun top kvs h => tableD_all (tbl := table)
+    (Q := fun top kvs => lookupJ "$ref" kvs = none →
+      kvs.all (shapeClause .d3 (D (baseInside env .d3 top kvs))) = true) (by decide +kernel) top kvs h
+  ref := fun top kvs r h hr => by
+    have := tableD_all (tbl := table)
+      (Q := fun top kvs => lookupJ "$ref" kvs = none ∨
+        (lookupJ "$ref" kvs = some (.str ['#']) ∧ designated env base top ['#'] = some (['#'], root)
+          ∧ env.urljoin top ['#'] = some ['#'] ∧ D ['#'] root = true)) (by decide +kernel) top kvs h
+    rcases this with h0 | ⟨h1, h2, h3, h4⟩
+    · rw [h0] at hr; cases hr
+    · rw [h1] at hr
+      cases hr
+      exact ⟨_, _, _, rfl, h2, h3, h4⟩
+
+/-- the run ends normally with one error; the specification (any number of steps) says valid -/
+theorem disagree :
+    (eval env impl (Draft.d3.cfg none) 3 (.obj []) root none st0).stop.isDone = true
+    ∧ (eval env impl (Draft.d3.cfg none) 3 (.obj []) root none st0).errs.isEmpty = false
+    ∧ validRN env .d3 base 3 [] root (.obj []) = true := by
+  decide +kernel
+
+end Required3
+
+/-- **the statement over the domain as first given is false** (draft 3, `required` next to `$ref`) -/
+theorem ref_verdict_agrees_counterexample : ¬ ref_verdict_agrees_statement := by
+  intro h
+  have h' := h Recursive.env Recursive.regexTotal Recursive.setOrderOk
+    Recursive.stable Recursive.impl .d3 Required3.base Required3.D Required3.refDomain_statement
+    [] Required3.root (.obj []) (by decide +kernel) (by decide +kernel) 3 Required3.st0
+    (C15.sameWorld_fresh Recursive.env Required3.st0 rfl) rfl
+    (Recursive.done_of_isDone Required3.disagree.1) 3 (Nat.le_refl _)
+  have he := h'.2 Required3.disagree.2.2
+  have := Required3.disagree.2.1
+  rw [he] at this
+  cases this
 
 end JS.Props.C02
